@@ -165,8 +165,13 @@ class ExcelCompiler:
             if self.cycles:
                 def _eval(cell, cse_array_address=None):
                     cell.start_calcs()
-                    return eval_ctx(
-                        cell.formula, cse_array_address=cse_array_address)
+                    try:
+                        return eval_ctx(
+                            cell.formula, cse_array_address=cse_array_address)
+                    except BaseException:
+                        # the calc ended without a value for the cell
+                        cell.wip = False
+                        raise
 
             else:
                 def _eval(cell, cse_array_address=None):
